@@ -106,7 +106,7 @@ let parse_prog (text : string) : pinfo =
   let ys = Array.init (Array.length parts - 1) (fun c ->
       let toks = List.filter (fun x -> x <> "") (String.split_on_char ' ' parts.(c + 1)) in
       List.concat_map (fun t ->
-          if t.[0] = 'U' || t.[0] = 'u' then has_u := true;
+          if t.[0] = 'U' || t.[0] = 'u' || t.[0] = 'C' then has_u := true;
           if t.[0] = 'I' || t.[0] = 'J' then pipe_objs := fst (num t 1) :: !pipe_objs;
           if (t.[0] = 'F' || t.[0] = 'A') && t.[String.length t - 1] = 's' then sync_objs := fst (num t 1) :: !sync_objs;
           let inner = (try let a = String.index t '[' in String.sub t (a + 1) (String.rindex t ']' - a - 1) with Not_found -> "") in
